@@ -9,7 +9,7 @@ from props._common import SPEC
 TECH = {
  "C01": "contract-based VCs (pyvc/z3) for the solver dispatch of sum_products, rename_duplicate_nodes and the scheduling partition computed by scc (nested function verified against its own contract) + bounded contract check of the real sum_product against an independent evaluation of the definition (stand-in; not proved)",
  "C02": "contract-based VCs from the real AST (pyvc/z3) for fixed_point/newton control flow + scalar semiring proofs (semvc/z3 NRA) + bounded stand-in for values",
- "C03": "bounded contract check of gradients against exact derivatives / central differences (stand-in; not proved)",
+ "C03": "contract-based VCs (pyvc/z3) for rename_duplicate_nodes and the einsum bookkeeping of sum_product_edges + bounded contract check of gradients against exact derivatives / central differences (stand-in; not proved)",
  "C04": "scalar proof that ViterbiSemiring.star is the least solution (semvc/z3) + bounded contract check of viterbi against brute force (stand-in; not proved)",
  "C05": "contract-based VCs (pyvc/z3) for method forwarding and fresh names + bounded stand-in (inlining isomorphism, sum-product equality)",
  "C06": "scalar-semantics proof obligations on the real PatternedTensor method ASTs (semvc/z3 NRA) + bounded stand-in for denotation + run-time representation invariant (hook)",
